@@ -311,6 +311,75 @@ def cached_result_mutations(model, g):
     return out
 
 
+_ARRAY_CTORS = {"np.eye", "np.zeros", "np.ones", "np.empty", "np.full", "np.array", "np.arange", "np.identity", "np.linspace", "np.diag",
+                "np.zeros_like", "np.ones_like", "np.asarray", "list", "dict", "set", "bytearray", "collections.defaultdict", "defaultdict"}
+_INPLACE_METHODS = MUTATORS | {"fill", "put", "itemset", "resize", "partition", "setfield", "setflags", "byteswap"}
+
+
+def _inplace_writes(node, is_target):
+    """Statements under `node` that modify in place an object named by an expression for which is_target(expr) holds."""
+    out = []
+    for n in ast.walk(node):
+        if isinstance(n, ast.AugAssign):
+            t = n.target
+            if is_target(t) or (isinstance(t, ast.Subscript) and is_target(t.value)):
+                out.append(n)
+        elif isinstance(n, ast.Assign):
+            for t in n.targets:
+                for tt in (t.elts if isinstance(t, (ast.Tuple, ast.List)) else [t]):
+                    if isinstance(tt, ast.Subscript) and is_target(tt.value):
+                        out.append(n)
+        elif isinstance(n, ast.Call):
+            if isinstance(n.func, ast.Attribute) and n.func.attr in _INPLACE_METHODS and is_target(n.func.value):
+                out.append(n)
+            for k in n.keywords:
+                if k.arg == "out" and is_target(k.value):
+                    out.append(n)
+    return out
+
+
+def mutable_default_sharing(model, modules):
+    """Default-argument objects (arrays / containers built once, when the function is defined) that are modified in place -- directly, or
+    after being stored un-copied into an attribute that some method of the class family modifies in place.  [(func, node, text)]"""
+    out = []
+    for mn in modules:
+        mod = model.mod(mn)
+        funcs = list(mod.funcs.values()) + [f for c in mod.classes.values() for f in c.methods.values()]
+        for f in funcs:
+            a = f.node.args
+            params = a.posonlyargs + a.args
+            defaults = list(zip(params[len(params) - len(a.defaults):], a.defaults)) + [(p_, d) for p_, d in zip(a.kwonlyargs, a.kw_defaults) if d is not None]
+            for p_, d in defaults:
+                mutable = isinstance(d, (ast.List, ast.Dict, ast.Set, ast.ListComp, ast.DictComp, ast.SetComp)) or (isinstance(d, ast.Call) and norm(d.func) in _ARRAY_CTORS)
+                if not mutable:
+                    continue
+                name = p_.arg
+                rebinds = [n for n in ast.walk(f.node) if isinstance(n, ast.Assign) and any(isinstance(t, ast.Name) and t.id == name for t in n.targets)]
+                if rebinds:
+                    continue  # the parameter is re-bound in the body (e.g. copied): not followed here
+                direct = _inplace_writes(f.node, lambda e: isinstance(e, ast.Name) and e.id == name)
+                for w in direct:
+                    out.append((f, w, f"default `{name}={norm(d)}` is built once, when {f.short} is defined, and `{norm(w)[:60]}` modifies it in place"))
+                if f.cls is None or not f.params:
+                    continue
+                me = f.params[0]
+                stored = [t.attr for n in ast.walk(f.node) if isinstance(n, (ast.Assign, ast.AnnAssign)) and isinstance(n.value, ast.Name) and n.value.id == name
+                          for t in (n.targets if isinstance(n, ast.Assign) else [n.target]) if isinstance(t, ast.Attribute) and isinstance(t.value, ast.Name) and t.value.id == me]
+                if not stored:
+                    continue
+                family = set(model.mro(f.cls)) | set(model.subclasses(f.cls))
+                for attr in stored:
+                    for k in family:
+                        for g in k.methods.values():
+                            if not g.params:
+                                continue
+                            me_g = g.params[0]
+                            for w in _inplace_writes(g.node, lambda e: isinstance(e, ast.Attribute) and e.attr == attr and isinstance(e.value, ast.Name) and e.value.id == me_g):
+                                out.append((g, w, f"default `{name}={norm(d)}` of {f.short} is built once and stored un-copied as self.{attr}; "
+                                                  f"`{norm(w)[:60]}` in {g.short} modifies that object in place, for every instance constructed with the default"))
+    return out
+
+
 def rule_shared_state(ctx, R, modules, what):
     ctx.rule(R, "no function of the anchored modules writes into a module-level or class-level mutable container (a cache there outlives the "
              "call and the object: results would depend on earlier calls / other instances, whatever key is used)")
@@ -347,6 +416,9 @@ def rule_shared_state(ctx, R, modules, what):
         ctx.ob(R, g.qname, f"values handed out by the functools cache around {g.short} are not modified in place by any caller", not muts,
                "; ".join(f"{f.short}: `{t[:60]}`" for f, _, t in muts[:3]) + f" -- the cached arrays are shared with every later call of {g.short}: its result depends on earlier calls; {what}",
                muts[0][1] if muts else g.node, evidence=True)
+    # default-argument objects live as long as the function: modifying one in place is process-wide state as well
+    for f, node, text in mutable_default_sharing(ctx.model, mods):
+        ctx.ob(R, f.qname, "no default-argument object is modified in place", False, f"{text}; {what}", node, evidence=True)
     ctx.ob(R, "darsia", f"{len(mods)} module(s), {n_funcs} function(s) scanned for writes into module-/class-level containers", True, "", None)
 
 
